@@ -662,6 +662,12 @@ func (e *Engine) specCall(cur, old *State, n SCall, env *SpecEnv) Val {
 			return boolVal("(fp.isNaN " + arg(0).T + ")")
 		case "isInf":
 			return boolVal("(fp.isInfinite " + arg(0).T + ")")
+		case "calls": // number of calls to a named callee on this path (needs `count-calls`)
+			if sl, ok := n.Args[0].(SLit); ok {
+				k := 0
+				fmt.Sscanf(cur.flags["calls:"+sl.Val], "%d", &k)
+				return Val{K: KInt, Ty: types.Typ[types.Int], T: bvLit(uint64(k), 64)}
+			}
 		case "called":
 			if s, ok := n.Args[0].(SLit); ok {
 				if f, ok := cur.flags["called:"+s.Val]; ok {
